@@ -72,7 +72,10 @@ func NewScanner(file string, r io.Reader) *Scanner {
 // attacker controls, in a parser whose job is to survive untrusted phylum
 // source.
 func NewScannerString(file, src string) *Scanner {
-	return newScannerBuf(file, strings.NewReader(src), make([]byte, len(src)))
+	// One byte more than src, so that the window is never completely full:
+	// a full window with no end of input seen yet is how Overflow recognises
+	// a token that outgrew it.
+	return newScannerBuf(file, strings.NewReader(src), make([]byte, len(src)+1))
 }
 
 // SetPath associates a physical location (e.g. filesystem path) with s to aid
@@ -205,6 +208,18 @@ func (s *Scanner) Err() error {
 	}
 	// There are still runes to consume before the error needs to be reported.
 	return nil
+}
+
+// Overflow reports whether the text scanned since the last call to EmitToken
+// or Ignore fills the scanner's window while input remains.  Such a token
+// cannot be completed: Peek reports false exactly as it does at the end of a
+// token, so a caller that does not ask would emit the part that fit and go on
+// to read the rest as something else.
+func (s *Scanner) Overflow() bool {
+	if s.start != 0 || len(s.buf) < cap(s.buf) || errors.Is(s.readErr, io.EOF) {
+		return false
+	}
+	return len(s.buf)-s.next < utf8.UTFMax
 }
 
 func (s *Scanner) EOF() bool {
